@@ -628,7 +628,11 @@ Inductive cop :=
   | OpUncond                      (* @unconditionalMatch *)
   | OpBeginsWith (m : macro) | OpContains (m : macro) | OpStreq (m : macro)
   | OpEq (m : macro) | OpGt (m : macro) | OpGe (m : macro) | OpLt (m : macro) | OpLe (m : macro)
-  | OpRxPrefix (lit : bytes).     (* @rx ^lit with lit a literal: (?sm)^lit *)
+  | OpRxPrefix (lit : bytes)      (* @rx ^lit with lit a literal: (?sm)^lit *)
+  (* @rx with an arbitrary pattern: Go's regexp is an oracle, given as the table "value that
+     matches -> the fields rx.go passes to CaptureField" (every group 0..9 of the pattern, the
+     empty string for a group that did not participate); a value not in the table does not match *)
+  | OpRxTable (tbl : list (bytes * list (N * bytes))).
 
 Definition cop_num (e : env) (s : st) (m : macro) : Z := atoi_val (atoi (macro_expand e s m)).
 
@@ -646,4 +650,9 @@ Definition cop_eval (o : cop) (e : env) (s : st) (v : bytes) : bool * list (N * 
   | OpRxPrefix lit =>
       let r := is_prefix lit v || is_substring (10 :: lit) v in
       (r, if r then [(0, lit)] else [])
+  | OpRxTable tbl =>
+      match find (fun p => bytes_eqb (fst p) v) tbl with
+      | Some p => (true, snd p)
+      | None => (false, [])
+      end
   end.
